@@ -33,10 +33,14 @@ def world_for(targets, only=None):
         kind = t.get('kind', 'server')
         if kind == 'unresolvable':
             hosts[t['host']] = {'gaierror': True}
+            if t.get('dns_delay_us'):
+                hosts[t['host']]['delay_us'] = t['dns_delay_us']      # the resolver takes this long to say so
             continue
         if kind == 'badline':
             continue
         hosts[t['host']] = {'answers': [[4, t['ip']]]}
+        if t.get('dns_delay_us'):
+            hosts[t['host']]['delay_us'] = t['dns_delay_us']
         if kind == 'refused':
             continue
         if kind == 'blackhole':
